@@ -195,6 +195,110 @@ theorem snapGrid_spec (x0 x1 res tol tx : Rat) (off : Option Rat) (n : Int) (ht 
                 simp only [gridLo, hnpos, if_false, rabs_of_neg hneg]
                 rw [hk]; ring
 
+/-! ### minimality: the snapped origin is less than one pixel away from the requested edge -/
+
+theorem sub_one_lt_floor_maybeInt (x tol : Rat) (ht : tol ≤ 1) : x - 1 < ((maybeInt x tol).floor : Rat) := by
+  rcases maybeInt_spec x tol with h | ⟨w, hw, hd⟩
+  · rw [h]
+    have := Rat.lt_floor_add_one (a := x)
+    push_cast at this
+    linarith
+  · rw [hw, Rat.floor_intCast]
+    unfold rabs at hd
+    split at hd <;> linarith
+
+theorem ceil_maybeInt_lt_add_one (x tol : Rat) (ht : tol ≤ 1) : ((maybeInt x tol).ceil : Rat) < x + 1 := by
+  rcases maybeInt_spec x tol with h | ⟨w, hw, hd⟩
+  · rw [h]
+    exact Rat.ceil_lt (x := x)
+  · rw [hw, Rat.ceil_intCast]
+    unfold rabs at hd
+    split at hd <;> linarith
+
+/-- `_snap_edge_pos` when the span is at least one pixel and `tol < ½`: the lower edge is less than a pixel
+below `x0`, the upper edge less than a pixel above `x1` -/
+theorem snapEdgePos_minimal (x0 x1 res tol tx : Rat) (n : Int) (ht : 0 ≤ tol) (ht2 : tol < 1 / 2)
+    (hspan : res ≤ x1 - x0) (h : snapEdgePos x0 x1 res tol = .ok (tx, n)) :
+    x0 - res < tx ∧ tx + (n : Rat) * res < x1 + res := by
+  unfold snapEdgePos at h
+  split at h
+  · cases h
+  · rename_i hres
+    have hres' : 0 < res := by simpa using hres
+    split at h
+    · cases h
+    · simp only [Except.ok.injEq, Prod.mk.injEq] at h
+      obtain ⟨h1, h2⟩ := h
+      subst h1
+      subst h2
+      have e0 : x0 / res * res = x0 := by field_simp
+      have e1 : x1 / res * res = x1 := by field_simp
+      have hf_lo := sub_one_lt_floor_maybeInt (x0 / res) tol (by linarith)
+      have hf_hi := floor_maybeInt_le (x0 / res) tol ht
+      have hc_lo := le_ceil_maybeInt (x1 / res) tol ht
+      have hc_hi := ceil_maybeInt_lt_add_one (x1 / res) tol (by linarith)
+      generalize (maybeInt (x0 / res) tol).floor = i0 at *
+      generalize (maybeInt (x1 / res) tol).ceil = i1 at *
+      have hq : 1 ≤ x1 / res - x0 / res := by
+        rw [← sub_div, le_div_iff₀ hres']
+        linarith
+      have hdiff : (0 : Rat) < ((i1 - i0 : Int) : Rat) := by
+        push_cast
+        linarith
+      have hdiff' : 1 ≤ i1 - i0 := by
+        have : (0 : Int) < i1 - i0 := by exact_mod_cast hdiff
+        omega
+      have hmax : max 1 (i1 - i0) = i1 - i0 := max_eq_right hdiff'
+      rw [hmax]
+      constructor
+      · have := mul_lt_mul_of_pos_right hf_lo hres'
+        nlinarith
+      · have := mul_lt_mul_of_pos_right hc_hi hres'
+        push_cast
+        nlinarith
+
+/-- `snap_grid` with a snapping offset, span ≥ one pixel, `tol < ½`: the returned origin (lower edge for
+`res > 0`, upper edge for `res < 0`) is less than one pixel away from the corresponding requested edge,
+on the outside by less than a pixel and on the inside by at most `tol` of a pixel. -/
+theorem snapGrid_origin_displacement (x0 x1 res o tol tx : Rat) (n : Int) (ht : 0 ≤ tol) (ht2 : tol < 1 / 2)
+    (hspan : rabs res ≤ x1 - x0) (h : snapGrid x0 x1 res (some o) tol = .ok (tx, n)) :
+    (0 < res → x0 - res < tx ∧ tx ≤ x0 + tol * res) ∧
+    (res < 0 → x1 - tol * (-res) ≤ tx ∧ tx < x1 + (-res)) := by
+  have hx : x0 ≤ x1 := le_trans (by linarith [rabs_nonneg res]) (by linarith : x0 + rabs res ≤ x1)
+  obtain ⟨hlo, hhi, _, _⟩ := snapGrid_spec x0 x1 res tol tx (some o) n ht hx h
+  unfold snapGrid at h
+  simp only at h
+  split at h
+  · cases h
+  · split at h
+    · cases h
+    · rename_i tx' n' hs
+      simp only [Except.ok.injEq, Prod.mk.injEq] at h
+      obtain ⟨h1, h2⟩ := h
+      subst h1; subst h2
+      unfold snapEdge at hs
+      split at hs
+      · cases hs
+      · split at hs
+        · rename_i hpos
+          have hm := snapEdgePos_minimal _ _ _ _ _ _ ht ht2 (by rw [rabs_of_pos hpos] at hspan; linarith) hs
+          refine ⟨fun _ => ?_, fun hneg => absurd hpos (by linarith)⟩
+          simp only [gridLo, hpos, if_true, rabs_of_pos hpos] at hlo
+          rw [rabs_of_pos hpos] at hm ⊢
+          exact ⟨by linarith [hm.1], hlo⟩
+        · rename_i hnpos
+          split at hs
+          · cases hs
+          · rename_i tx'' n'' hs'
+            simp only [Except.ok.injEq, Prod.mk.injEq] at hs
+            obtain ⟨h1, h2⟩ := hs
+            subst h1; subst h2
+            refine ⟨fun hpos => absurd hpos hnpos, fun hneg => ?_⟩
+            have hm := snapEdgePos_minimal _ _ _ _ _ _ ht ht2 (by rw [rabs_of_neg hneg] at hspan; linarith) hs'
+            simp only [gridHi, hnpos, if_false, rabs_of_neg hneg] at hhi
+            rw [rabs_of_neg hneg] at hm ⊢
+            exact ⟨hhi, by linarith [hm.2]⟩
+
 /-! ### `argmaxFirst` -/
 
 theorem argmaxFirst_spec (l : List (Nat × Rat)) (c : Nat × Rat) (h : argmaxFirst l = some c) :
